@@ -4,6 +4,8 @@ import (
 	"math"
 	"strconv"
 	"strings"
+	"unicode"
+	"unicode/utf8"
 
 	"github.com/grindlemire/go-lucene/internal/lex"
 	"github.com/grindlemire/go-lucene/pkg/lucene/expr"
@@ -30,6 +32,57 @@ func Lex(in string) (toks []Tok, lexErr bool) {
 		toks = append(toks, Tok{t.Typ, t.Val})
 	}
 	return toks, false
+}
+
+var symbolKinds = map[string]lex.TokType{"(": lex.TLParen, ")": lex.TRParen, "[": lex.TLSquare, "]": lex.TRSquare, "{": lex.TLCurly, "}": lex.TRCurly,
+	":": lex.TColon, "+": lex.TPlus, "=": lex.TEqual, ">": lex.TGreater, "<": lex.TLess, "~": lex.TTilde, "^": lex.TCarrot, "-": lex.TMinus}
+
+// KindOfText is the harness' own reading of what kind of token a piece of query text is,
+// decided from the text alone: a symbol is exactly its character, a keyword is its ASCII
+// spelling in any letter case, a phrase starts with a quote, a regexp with a slash, and
+// everything else that starts with a word character, a wildcard, a backslash or a minus sign
+// followed by a digit is a term. ok is false for text that is no token at all.
+func KindOfText(v string) (k lex.TokType, ok bool) {
+	if v == "" {
+		return 0, false
+	}
+	if k, isSym := symbolKinds[v]; isSym {
+		return k, true
+	}
+	switch v[0] {
+	case '"', '\'':
+		return lex.TQuoted, true
+	case '/':
+		return lex.TRegexp, true
+	}
+	if len(v) <= 3 {
+		up := []byte(v)
+		for i, c := range up {
+			if c >= 'a' && c <= 'z' {
+				up[i] = c - 'a' + 'A'
+			}
+		}
+		switch string(up) {
+		case "AND":
+			return lex.TAnd, true
+		case "OR":
+			return lex.TOr, true
+		case "NOT":
+			return lex.TNot, true
+		case "TO":
+			return lex.TTO, true
+		}
+	}
+	r, _ := utf8.DecodeRuneInString(v)
+	if r == '_' || r == '*' || r == '?' || r == '\\' || unicode.IsLetter(r) || unicode.IsDigit(r) {
+		return lex.TLiteral, true
+	}
+	if r == '-' && len(v) > 1 {
+		if d, _ := utf8.DecodeRuneInString(v[1:]); unicode.IsDigit(d) {
+			return lex.TLiteral, true
+		}
+	}
+	return 0, false
 }
 
 // IsTermTok reports whether the token is a term.
